@@ -38,10 +38,13 @@ fn run(bin: &str, args: &[&str], seed: u64) -> Result<(), String> {
 
 impl M19 {
     pub fn new(seed: u64) -> Self {
-        let dir = "/verif/.target/c19";
+        let lane = crate::engine::lane();
+        let dir_s = format!("{}/.target/c19", lane);
+        let dir = dir_s.as_str();
         let _ = std::fs::create_dir_all(dir);
-        let blst = "/verif/.target/xb-blst/release/xb";
-        let rust = "/verif/.target/xb-rust/release/xb";
+        let blst_s = format!("{}/.target/xb-blst/release/xb", lane);
+        let rust_s = format!("{}/.target/xb-rust/release/xb", lane);
+        let (blst, rust) = (blst_s.as_str(), rust_s.as_str());
         let f = |n: &str| format!("{}/{}", dir, n);
         let mut errors = vec![];
         for n in ["t-blst.json", "t-rust.json", "p-blst.json", "p-rust.json", "c-rust-of-blst.json", "c-blst-of-rust.json"] {
